@@ -15,7 +15,7 @@ MAP_TRACED = ("/tracklib/algo/mapping.py", "/tracklib/algo/dynamics.py")
 C06_OPS = ("dist", "dist_all", "all_pairs", "prepare", "prepared")
 C07_OPS = ("path", "path_multi")
 C10_OPS = ("map", "remap")
-OTHER_OPS = ("add_edge", "reload", "index", "simplify")
+OTHER_OPS = ("add_edge", "reload", "index", "simplify", "sub_network")
 
 
 def _wchoice(r, pairs):
@@ -101,7 +101,8 @@ class NetWorld(World):
                 "loops": r.choice([0, 0.1]), "oneway": r.choice([0, 0.2, 0.5]),
                 "reload": r.choice([0, 0, 0.03, 0.1]), "fault_rate": r.choice([0, 0, 0.2]),
                 "grid": r.choice([2, 3, 4]), "step": r.choice([10.0, 25.0, 7.5]),
-                "vertical_exact": r.choice([0, 0, 0.02]),
+                "vertical_exact": r.choice([0, 0, 0.02]), "subnet": r.choice([0, 0.03, 0.1]),
+                "alt": r.choice([0.0, 0.0, 35.5]), "prep_cut": r.choice([None, None, 3.0, 10.0]),
                 # hub mode: few nodes, many parallel edges whose weights decrease in insertion order
                 # (many decrease-key operations and outdated entries in the priority queue)
                 "hub": hub}
@@ -183,6 +184,10 @@ class NetWorld(World):
         if fam == "grow":
             if r.random() < 0.04 and not self.cfg["road"]:
                 return {"op": "simplify", "s": s, "tol": r.choice([0.5, 2.0, 5.0])}
+            if r.random() < self.cfg.get("subnet", 0):
+                return {"op": "sub_network", "s": s, "a": r.randrange(64), "cut": self._gen_cut(r, m),
+                        "mode": r.choice(["TOPOLOGIC", "TOPOLOGIC", "GEOMETRIC"]),
+                        "to": (s + 1) % self.cfg["sessions"] if (self.cfg["sessions"] > 1 and r.random() < 0.5) else None}
             if r.random() < self.cfg["reload"]:
                 st = {"op": "reload", "s": s, "sep": r.choice([",", ";"])}
                 if r.random() < self.cfg["fault_rate"]:
@@ -217,12 +222,14 @@ class NetWorld(World):
                     [round(r.uniform(0.05, 0.9), 3), round(r.uniform(0.05, 0.9), 3)],
                     "margin": r.choice([0.05, 0.2, 0.5])}
         if m["prepared"] is None:
-            return {"op": "prepare", "s": s, "cut": 1e300}
+            pc = self.cfg.get("prep_cut")
+            return {"op": "prepare", "s": s, "cut": 1e300 if pc is None else pc * self.cfg["step"]}
         slot = r.randrange(2)
         if (s, slot) in self.tracks and r.random() < 0.35:
             return {"op": "remap", "s": s, "slot": slot, "noise": r.choice([1, 10, 50]),
                     "radius": self._gen_radius(r), "tcost": r.choice([1, 10])}
         st = {"op": "map", "s": s, "slot": slot, "obs": self._gen_track(r, m), "noise": r.choice([1, 10, 50]),
+              "z": self.cfg.get("alt", 0.0) if r.random() < 0.7 else 0.0,
               "radius": self._gen_radius(r), "tcost": r.choice([1, 10]), "coll": r.random() < 0.3}
         if r.random() < self.cfg["fault_rate"] * 0.5:
             st["fault"] = {"kind": "interrupt", "at": int(round(10 ** r.uniform(0, 3.3)))}
@@ -690,6 +697,52 @@ class NetWorld(World):
         if got != exp:
             self.fail("C06", "reload.structure", "edges of the reloaded network", exp, got)
 
+    def op_sub_network(self, st):
+        """Network.sub_network runs a forward search on the parent and builds a second
+        network from the *same* Edge and Node objects.  Which edges it keeps is not C06's
+        subject (the content is adopted); what is judged is that every later answer of the
+        parent -- and of the extracted network, when it becomes a session -- is still a true
+        minimum on its own graph."""
+        from tracklib.core import ENUCoords
+        net, m = self._sess(st)
+        if not m["edges"]:
+            raise Skip()
+        a = self._node(m, st["a"])
+        if st["mode"] == "GEOMETRIC":
+            if m["index"] is not None:
+                raise Skip()        # geometric extraction through a spatial index raises TypeError on the
+                                    # unchanged tree (it indexes the integers neighborhood() returns): not C06
+            src = ENUCoords(m["nodes"][a][0], m["nodes"][a][1], 0)
+        else:
+            src = a
+        m["last_source"] = a
+        rv, exc = self.call(net.sub_network, src, st["cut"], st["mode"], False)
+        if exc is not None:
+            return self._unexpected("C06", exc, "sub_network(%s, %s, %s)" % (a, st["cut"], st["mode"]))
+        ids, nids = list(rv.getEdgesId()), list(rv.getNodesId())
+        by_id = {e["id"]: e for e in m["edges"]}
+        if any(i not in by_id for i in ids) or len(set(ids)) != len(ids):
+            self.fail("C06", "subnet.edges", "sub_network returned edges the parent does not have", sorted(by_id), ids)
+            return
+        self.probe("sub_network_extracted")
+        self.observed([len(ids), len(nids)])
+        to = st.get("to")
+        if to is None or to == st.get("s", 0) or not ids:
+            return
+        if any(v not in m["nodes"] for v in nids):
+            self.fail("C06", "subnet.nodes", "sub_network returned nodes the parent does not have", sorted(m["nodes"]), nids)
+            return
+        import copy as _copy
+        self.real[to] = rv
+        self.model[to] = {"nodes": {v: list(m["nodes"][v]) for v in nids},
+                          "edges": [_copy.deepcopy(by_id[i]) for i in ids], "fw": None, "index": None,
+                          "prepared": None, "grown_since_prepare": False, "exact": m["exact"],
+                          "all_abs": m["all_abs"], "shared": True}
+        m["shared"] = True
+        for k in [k for k in self.tracks if k[0] == to]:
+            del self.tracks[k]
+        self.probe("sub_network_becomes_a_session")
+
     def op_simplify(self, st):
         """Network.simplify replaces every edge geometry (Douglas-Peucker).  Which
         vertices survive is C16's subject and is not judged: the model adopts the
@@ -698,6 +751,8 @@ class NetWorld(World):
         net, m = self._sess(st)
         if not m["edges"] or any(e["pts"][0] == e["pts"][-1] for e in m["edges"]):
             raise Skip()            # closed geometries: division by zero in the simplifier (C16, not claimed)
+        if m.get("shared"):
+            raise Skip()            # edges shared with an extracted sub-network (by design): one model per object
         if any(p == q for e in m["edges"] for p, q in zip(e["pts"], e["pts"][1:])):
             raise Skip()
         for e in m["edges"]:
@@ -758,7 +813,10 @@ class NetWorld(World):
             tr = self.tracks[key]["real"]
             self.probe("second_mapping_of_the_same_track")
         else:
-            tr = Track([Obs(ENUCoords(x, y, 0), ObsTime(2020, 1, 1, 0, 0, k % 60)) for k, (x, y) in enumerate(obs)])
+            z = st.get("z", 0.0)
+            if z:
+                self.probe("track_with_altitude_on_a_flat_network")
+            tr = Track([Obs(ENUCoords(x, y, z), ObsTime(2020, 1, 1, 0, 0, k % 60)) for k, (x, y) in enumerate(obs)])
             self.tracks[key] = {"real": tr, "obs": obs}
         if m["grown_since_prepare"]:
             self.probe("mapping_after_addEdge")
